@@ -76,6 +76,7 @@ def main():
     ap.add_argument("--san", action="store_true")
     ap.add_argument("--pygrid", type=int, default=6 * 3600 + 1800)
     ap.add_argument("--targets", default="python,arduino")
+    ap.add_argument("--strict", action="store_true", help="compile with the compiler's --strict option (misaligned values remove the zone instead of truncating it)")
     a = ap.parse_args()
     tzpipe.attach_contracts()
     v = vlib.Verdict("C03", "quick", "translation_validation")
@@ -89,14 +90,14 @@ def main():
         elif a.kind == "recon-b":
             c03lib.check_program(v, "recon-zonedb", recon("zonedb"), work, scopes=("basic",), stats=st, grid=a.grid, nbhd=a.nbhd, py_grid_s=a.pygrid, san=a.san, targets=targets)
         elif a.kind == "features":
-            c03lib.check_program(v, "features", features(), work, stats=st, grid=a.grid, nbhd=a.nbhd, py_grid_s=a.pygrid, san=a.san, targets=targets)
+            c03lib.check_program(v, "features" + ("+strict" if a.strict else ""), features(), work, stats=st, grid=a.grid, nbhd=a.nbhd, py_grid_s=a.pygrid, san=a.san, targets=targets, strict=a.strict)
         elif a.kind == "unsupported":
-            c03lib.check_program(v, "unsupported-constructs", unsupported(), work, stats=st, grid=a.grid, nbhd=a.nbhd, py_grid_s=a.pygrid, san=a.san, targets=targets)
+            c03lib.check_program(v, "unsupported-constructs" + ("+strict" if a.strict else ""), unsupported(), work, stats=st, grid=a.grid, nbhd=a.nbhd, py_grid_s=a.pygrid, san=a.san, targets=targets, strict=a.strict)
         elif a.kind == "tz2025b":
             p, pz = tz2025b(True)
             info["percent_z_zones_left"] = sorted(pz)
-            c03lib.check_program(v, "tzdata-2025b-normalised", p, work, stats=st, grid=a.grid, nbhd=a.nbhd, py_grid_s=a.pygrid, expect_percent_z=pz,
-                                 selfcheck_zones=None, san=a.san, targets=targets)
+            c03lib.check_program(v, "tzdata-2025b-normalised" + ("+strict" if a.strict else ""), p, work, stats=st, grid=a.grid, nbhd=a.nbhd, py_grid_s=a.pygrid, expect_percent_z=pz,
+                                 selfcheck_zones=None, san=a.san, targets=targets, strict=a.strict)
         elif a.kind == "tz2025b-raw":
             p, _ = tz2025b(False)
             pz = {z for z, eras in p["zones"].items() if any('%z' in e[2] for e in eras)}
